@@ -53,7 +53,7 @@ def _op_job(args):
             if not ser['defined']:
                 return dict(jid=jid, skipped='coarse sweep undefined (singular diagonal solve)')
             out, ev, info = nodepar.run_transfer_case_mpi(inst, P, sched_seed=ss, policy=pol)
-            keys = ('restricted', 'coarse_res', 'defined', 'coarse_swept', 'prolonged')
+            keys = ('restricted', 'coarse_res', 'defined', 'coarse_swept', 'prolonged', 'f_impl', 'f_expl')
         diffs = []
         if info['deadlock'] or info['failed']:
             diffs.append(('deadlock' if info['deadlock'] else 'mpi_error', str(info['failed'] or info['errors'])[:300]))
@@ -64,7 +64,7 @@ def _op_job(args):
         for k in info['agree']:
             diffs.append(('ranks_disagree', k))
         for k in keys:
-            if out.get(k) != ser.get(k) and not (k in ('sweep', 'coarse_swept', 'prolonged') and not ser['defined']):
+            if out.get(k) != ser.get(k) and not (k in ('sweep', 'coarse_swept', 'prolonged', 'f_impl', 'f_expl') and not ser['defined']):
                 diffs.append((k, f'node-parallel {json.dumps(out.get(k))[:120]} / serial {json.dumps(ser.get(k))[:120]}'))
         # shape for TraceSdcAlgebra
         if mode == 'sweep':
@@ -76,6 +76,9 @@ def _op_job(args):
             out.setdefault('fine_u0_kept', True)
             out.setdefault('coarse_swept', [])
             out.setdefault('prolonged', [])
+            out.setdefault('f_impl', [])
+            out.setdefault('f_expl', [])
+            out.setdefault('finter', False)
         return dict(jid=jid, mode=mode, inst=inst, diffs=diffs, ev=nodepar.normalise_events(ev), info=info, out=out)
     except Exception as e:  # noqa
         import traceback
